@@ -62,7 +62,10 @@ void h_calc_necessary_size(void) {
     struct aws_array_list *l; size_t i; size_t *out;
     GHOSTS();
     int r = aws_array_list_calc_necessary_size(l, i, out);
-    if (r == 0) CANARY("fits"); else if (i == SIZE_MAX) CANARY("index+1 overflows"); else CANARY("product overflows");
+    if (r == 0) CANARY("fits"); else if (i == SIZE_MAX) CANARY("index+1 overflows");
+#if VERIF_ITEM_SIZE > 1
+    else CANARY("product overflows");
+#endif
 }
 void h_ensure_capacity(void) {
     struct aws_array_list *l; size_t i;
@@ -180,7 +183,10 @@ void h_init_dynamic(void) {
     struct aws_array_list *l; struct aws_allocator *al; size_t n, sz;
     GHOSTS();
     int r = aws_array_list_init_dynamic(l, al, n, sz);
-    if (r == 0) { if (n == 0) CANARY("no initial allocation"); else CANARY("allocated"); } else CANARY("size overflow");
+    if (r == 0) { if (n == 0) CANARY("no initial allocation"); else CANARY("allocated"); }
+#if VERIF_ITEM_SIZE > 1
+    else CANARY("size overflow");
+#endif
 }
 void h_init_static(void) {
     struct aws_array_list *l; void *raw; size_t n, sz;
